@@ -65,7 +65,7 @@ func goReplay(cl *cluster, m *member, r int) []int {
 }
 
 func runC10(r *Result, thorough bool) {
-	r.Rule = "G2 runs of real cores (3-5 genesis validators) with successive and simultaneous join requests, a leave, a re-join after leave, requests refused by the application, and a late joiner that replays the whole history; " +
+	r.Rule = "G2 runs of real cores (3-5 genesis validators) with successive and simultaneous join requests, two requests carried by one event (two receipts in one block: accepted+accepted, accepted+refused, refused+accepted), a leave, a re-join after leave, requests refused by the application, and a late joiner that replays the whole history; " +
 		"for every member and every round up to last round + 8: Store.GetPeerSet(r) vs the Lean table model (buildTable / peersAtTbl) and vs an independent Go replay of the member's own delivered blocks; block PeersHash vs the set at its round received; histories compared across members. " +
 		"non-trivial: >=1 accepted change and lookups on both sides of its effective round"
 	rng := rand.New(rand.NewSource(r.Seed))
@@ -79,10 +79,37 @@ func runC10(r *Result, thorough bool) {
 		cl := newCluster(rng, n, 10000, nil)
 		steps := 350 + rng.Intn(250)
 		var joiners []*member
-		refusedKey := ""
+		refusedKeys := []string{}
 		leaver := -1
-		rejoined := false
+		done := map[string]bool{}
+		once := func(name string, at int, s int, cond bool) bool {
+			if cond && s >= at && !done[name] {
+				done[name] = true
+				return true
+			}
+			return false
+		}
+		refusedJoin := func(host *member) {
+			j := newMember(cl.rng, len(cl.members))
+			j.joiner = true
+			cl.mkCore(j, host.core.Peers().Peers)
+			refusedKeys = append(refusedKeys, j.hex)
+			for _, m := range cl.members {
+				m.app.refuse[j.hex] = true
+			}
+			j.app.refuse[j.hex] = true
+			itx := hg.NewInternalTransactionJoin(*j.peer)
+			itx.Sign(j.key)
+			host.core.AddInternalTransaction(itx)
+			cl.members = append(cl.members, j)
+		}
 		for s := 0; s < steps; s++ {
+			// every application (also of members created later) refuses the same requests
+			for _, k := range refusedKeys {
+				for _, m := range cl.members {
+					m.app.refuse[k] = true
+				}
+			}
 			act := cl.activeMembers()
 			a, b := act[rng.Intn(len(act))], act[rng.Intn(len(act))]
 			if a == b {
@@ -91,30 +118,41 @@ func runC10(r *Result, thorough bool) {
 			if rng.Intn(3) == 0 {
 				cl.submit(a, cl.newTx())
 			}
-			switch {
-			case s == steps/8: // successive
+			if once("successive", steps/8, s, true) {
 				joiners = append(joiners, cl.startJoin(a))
-			case s == steps/8+3 && ri%2 == 0: // simultaneous (inside the same window)
+			}
+			if once("simultaneous", steps/8+3, s, ri%2 == 0) { // inside the same window
 				joiners = append(joiners, cl.startJoin(b))
-			case s == steps/4 && ri%3 == 0: // a request every application refuses
-				j := newMember(cl.rng, len(cl.members))
-				j.joiner = true
-				cl.mkCore(j, a.core.Peers().Peers)
-				refusedKey = j.hex
-				for _, m := range cl.members {
-					m.app.refuse[j.hex] = true
+			}
+			if once("refused", steps/4, s, ri%3 == 0) { // a request every application refuses
+				refusedJoin(a)
+			}
+			if once("pair", steps/3, s, true) {
+				// two requests in ONE event of the same host, hence two receipts in one block:
+				// accepted+accepted, accepted+refused, refused+accepted
+				switch ri % 3 {
+				case 0:
+					joiners = append(joiners, cl.startJoin(a))
+					joiners = append(joiners, cl.startJoin(a))
+				case 1:
+					joiners = append(joiners, cl.startJoin(a))
+					refusedJoin(a)
+				default:
+					refusedJoin(a)
+					joiners = append(joiners, cl.startJoin(a))
 				}
-				j.app.refuse[j.hex] = true
-				itx := hg.NewInternalTransactionJoin(*j.peer)
-				itx.Sign(j.key)
-				a.core.AddInternalTransaction(itx)
-				cl.members = append(cl.members, j)
-			case s == steps/2 && n >= 4:
+				r.Inc("two_requests_in_one_event", 1)
+			}
+			if once("leave", steps/2, s, n >= 4) {
 				leaver = n - 1
 				cl.startLeave(cl.members[leaver])
-			case s == (3*steps)/4 && leaver >= 0 && !rejoined:
+			}
+			rejoinAt := (3 * steps) / 4
+			if ri%2 == 1 {
+				rejoinAt = steps/2 + 25 + 5*(ri%4) // inside the activation window of the leave
+			}
+			if once("rejoin", rejoinAt, s, leaver >= 0) {
 				// re-join after leave: the removed validator asks again
-				rejoined = true
 				lm := cl.members[leaver]
 				itx := hg.NewInternalTransactionJoin(*lm.peer)
 				itx.Sign(lm.key)
@@ -123,15 +161,16 @@ func runC10(r *Result, thorough bool) {
 			cl.pull(a, b, -1)
 			cl.activateJoiners()
 		}
-		_ = refusedKey
 		// a late joiner replaying the whole history from genesis (no fast sync)
 		late := newMember(cl.rng, len(cl.members))
 		cl.mkCore(late, cl.genesis)
 		late.core.SetAcceptedRound(1 << 30) // an observer: replays the history, never creates events
-		for _, m := range cl.members {
-			m.app.refuse[refusedKeyOr(refusedKey)] = refusedKey != ""
+		for _, k := range refusedKeys {
+			for _, m := range cl.members {
+				m.app.refuse[k] = true
+			}
+			late.app.refuse[k] = true
 		}
-		late.app.refuse[refusedKeyOr(refusedKey)] = refusedKey != ""
 		cl.members = append(cl.members, late)
 		src := cl.members[0]
 		for k := 0; k < 40; k++ {
@@ -249,11 +288,4 @@ func runC10(r *Result, thorough bool) {
 		r.Sample(map[string]interface{}{"op": c.Ops[0], "go": c.Obs[0]}, 8)
 	}
 	r.Compare(c)
-}
-
-func refusedKeyOr(k string) string {
-	if k == "" {
-		return "none"
-	}
-	return k
 }
